@@ -13,6 +13,8 @@ import (
 	"github.com/kubewharf/kubebrain/pkg/backend"
 	"github.com/kubewharf/kubebrain/pkg/server/service/leader"
 	"github.com/kubewharf/kubebrain/pkg/storage"
+	badgerkv "github.com/kubewharf/kubebrain/pkg/storage/badger"
+	"github.com/kubewharf/kubebrain/pkg/storage/memkv"
 	"github.com/kubewharf/kubebrain/pkg/zzmodel"
 	"github.com/kubewharf/kubebrain/pkg/zzverif"
 )
@@ -83,12 +85,12 @@ func (g *lockGate) stop() {
 	}
 }
 
-func newNode(s *zzmodel.Store, id string) (backend.Backend, leader.LeaderElection) {
+func newNode(s storage.KvStorage, id string) (backend.Backend, leader.LeaderElection) {
 	be, le, _ := newNodeGate(s, id)
 	return be, le
 }
 
-func newNodeGate(s *zzmodel.Store, id string) (backend.Backend, leader.LeaderElection, *lockGate) {
+func newNodeGate(s storage.KvStorage, id string) (backend.Backend, leader.LeaderElection, *lockGate) {
 	var kv storage.KvStorage = s
 	var g *lockGate
 	stopped := func() {}
@@ -108,17 +110,31 @@ func newNodeGate(s *zzmodel.Store, id string) (backend.Backend, leader.LeaderEle
 // Every revision it hands out is greater than every revision already stored: a guarded update of
 // an existing key succeeds and a create gets a larger revision.
 func VerifC15Restart() {
-	s := zzmodel.NewStore()
-	// engine clock contract: 0 = wall clock / PD timestamp (advances at least one unit per write
-	// attempt), 1 = count of committed transactions (Badger's read timestamp)
-	engine := zzverif.Choose("engineClock", 2)
+	cs := zzmodel.NewStore()
+	// the engine: 0 = the contract store with a wall clock / PD timestamp oracle (advances at least
+	// one unit per write attempt); 1 = the real Badger adapter; 2 = the real in-memory adapter (both
+	// over the models of their libraries; natively a Badger directory / the real skiplist)
+	engine := zzverif.Choose("engineClock", zzverif.Param("engines", 3))
 	elapsed := uint64(0)
-	s.ClockFn = func() uint64 {
-		if engine == 1 {
-			return 1000 + uint64(s.NApplied)
-		}
-		return 1000 + elapsed
+	cs.ClockFn = func() uint64 { return 1000 + elapsed }
+	var s storage.KvStorage = cs
+	switch engine {
+	case 1:
+		bd, err := badgerkv.NewKvStorage(badgerkv.Config{Dir: zzverif.TempDir()})
+		zzverif.Assert(err == nil, "badger opens")
+		s = bd
+		zzverif.Cover("engine-badger")
+	case 2:
+		s = memkv.NewKvStorage()
+		zzverif.Cover("engine-memkv")
 	}
+	// engines that read the wall clock: the ghost clock is pinned to concrete, increasing instants
+	// (revisions index the pending-event ring); natively real time passes
+	tick := func(d uint64) {
+		elapsed += d
+		zzverif.SetClock(1000 + elapsed)
+	}
+	tick(0)
 	ctx := context.Background()
 	old, oldLE, oldGate := newNodeGate(s, "old")
 	go oldLE.Campaign()
@@ -140,7 +156,7 @@ func VerifC15Restart() {
 	// revision without touching the engine
 	nf := zzverif.Param("failures", 0)
 	for i := 0; i < nf; i++ {
-		elapsed += 1
+		tick(1)
 		resp, err := old.Update(ctx, &proto.UpdateRequest{Kv: &proto.KeyValue{Key: []byte("/r/other"), Value: []byte("v"), Revision: 3}})
 		zzverif.Assert(err == nil && !resp.Succeeded, "old leader: a stale update of a missing key is refused")
 		failed++
@@ -149,7 +165,7 @@ func VerifC15Restart() {
 	base += uint64(nf)
 	for i := 0; i < n; i++ {
 		tag := "w" + string(rune('0'+i))
-		elapsed += 1 + uint64(zzverif.Choose(tag+".idle", 2))*5
+		tick(1 + uint64(zzverif.Choose(tag+".idle", 2))*5)
 		exp := zzverif.U64(tag + ".exp")
 		zzverif.Assume(exp <= base+uint64(n))
 		resp, err := old.Update(ctx, &proto.UpdateRequest{Kv: &proto.KeyValue{Key: key, Value: []byte("v"), Revision: exp}})
@@ -180,6 +196,7 @@ func VerifC15Restart() {
 	}
 
 	// the old leader stops; a new node over the same store
+	tick(uint64(n + nf + 2)) // at least as many clock units have passed as revisions were handed out
 	nb, newLE := newNode(s, "new")
 	// it may have served follower reads before: revisions synced from the old leader, in any order
 	nsync := zzverif.Choose("syncs", 3)
@@ -187,21 +204,21 @@ func VerifC15Restart() {
 		nb.SetCurrentRevision(seen[zzverif.Choose("sync"+string(rune('0'+i)), len(seen))])
 		zzverif.Cover("follower-sync")
 	}
-	elapsed += 1
+	tick(1)
 	// the engine's timestamp oracle may fail once at any of its first calls of the take-over (a PD
 	// hiccup during fail-over); the elector then retries the round
 	of := zzverif.Choose("oracleFault", zzverif.Param("oraclefaults", 3)+1)
 	ncall := 0
 	fault := func() bool { ncall++; return of != 0 && ncall == of }
 	if zzverif.Symbolic() {
-		s.TSOFault = fault
+		cs.TSOFault = fault
 		go newLE.Campaign()
 		zzverif.FireTickers()
 		zzverif.WaitIdle()
 		if of != 0 && ncall >= of {
 			zzverif.Cover("oracle-fault-during-takeover")
 			if !newLE.IsLeader() {
-				elapsed += 1
+				tick(1)
 				go newLE.Campaign() // next round of the elector
 				zzverif.WaitIdle()
 			}
@@ -212,10 +229,10 @@ func VerifC15Restart() {
 		// pass that can acquire, as in the model; after a failed pass the elector retries by itself
 		go newLE.Campaign()
 		time.Sleep(8100 * time.Millisecond)
-		s.TSOFault = fault
+		cs.TSOFault = fault
 		time.Sleep(time.Duration(zzverif.Param("native_takeover_ms", 6500)) * time.Millisecond)
 	}
-	s.TSOFault = nil
+	cs.TSOFault = nil
 	zzverif.Observe("takeover", newLE.IsLeader(), nb.GetCurrentRevision() >= stored, nb.GetCurrentRevision() > base)
 	zzverif.Assert(newLE.IsLeader(), "second node becomes leader")
 	zzverif.Assert(nb.GetCurrentRevision() >= stored, "everything written before remains visible at the new leader's revision")
